@@ -27,22 +27,41 @@
     done():     u.store   io_flag.store(0, Relaxed)
                 u.sys     system call again;  EAGAIN →  u.chk  io_flag.load(Relaxed) ≠ 0 ? u.store : u.pre
 
-    subscribe (kernel tail `k`, on whichever worker switched the coroutine off):
-                k.start   [time-out d] add_io_timer: timer_list.add_timer(d)        k.set  io.timer.replace(h)
+    subscribe (kernel tail `k`, on whichever worker switched the coroutine off) – the REPAIRED code, what `init` describes:
+                k.reg0    [read / recv / accept / connect] cancel.set_io(io_data)   – BEFORE the publication (fix: io-stale-set_io)
+                k.start   [time-out d] add_io_timer (`t.arm` mark)
+                k.arm     EventData::arm_timer: lock the handle cell, next wait number, timer_list.add_timer(d), store the handle,
+                          unlock – one step, enabled while no timeout handler holds the cell's lock (fix: io-timer-handle-race)
+                k.set     (`t.set` mark)
                 k.store   io_data.co.store(co)
-                k.load    io_flag.load(Acquire) ≠ 0 ?  fast_schedule : register for cancel
-                k.take    fast_schedule: co.take()          k.dis  timer.take(): event_data := null, remove; run_coroutine
-                k.reg     cancel.set_io(io_data)            k.chk  cancel.is_canceled() ? cancel()
+                k.load    io_flag.load(Acquire) ≠ 0 ?  fast_schedule : cancel re-check
+                k.take    fast_schedule: co.take()          k.dis  lock the cell, take the handle: event_data := null, remove; run_coroutine
+                k.chk2    cancel.is_canceled() ?            k.own  io_data.schedule(): co.take()   k.ownDis  disarm; schedule
     select (worker `w`), per epoll event:
-                deliver   io_flag.fetch_or(bits, Release)   w.sTake co.take()   w.sDis disarm timer; schedule
-    timeout_handler (worker `w`, from timer_list.schedule_timer):
-                fire      event_data null ? return : timer.take()     w.fOr io_flag.fetch_or(IO_FLAG_TIMEOUT, Release)
-                w.fTake   co.take(); set TimedOut; run_coroutine      (a `subscribe` that had armed this timer but not yet published
-                          its coroutine sees the flag in its re-check, re-runs the coroutine, which retries and arms a fresh timer)
-    Cancel::cancel (any thread, or the kernel tail itself after its re-check):
-                cancel    state.fetch_or(1)   x.io  CancelIoImpl.take()   x.take  io.co.take(); disarm_timer(); schedule
-    (`St.fixFlag` / `St.fixDis` = false give the pinned tree – no flag from the handler, timer left armed by cancel – for the
-     labelled defect witnesses; every theorem is about `init`, the fixed code of /repo HEAD)
+                deliver   io_flag.fetch_or(bits, Release)   w.sTake co.take()   w.sDis lock the cell, disarm the timer; schedule
+    timer thread / timeout_handler (worker `w`, from timer_list.schedule_timer):
+                pop       (environment) the entry leaves the list with the `event_data` it has at that moment: a disarm that comes
+                          later cannot stop its handler any more
+                fire      the handler begins: event_data null ? return :
+                w.fChk    lock the cell; does it still hold the handle of THIS entry's wait (handle there, same wait number) ?
+                          no → unlock, return (stale: the wait is over, or a later wait has armed its own timer);
+                          yes → take the handle, KEEP the lock
+                w.fOr     io_flag.fetch_or(IO_FLAG_TIMEOUT, Release)
+                w.fTake   co.take(); unlock; [found] set TimedOut; run_coroutine   (a `subscribe` that had armed this timer but not yet
+                          published its coroutine sees the flag in its re-check, re-runs the coroutine, which retries and arms afresh)
+    Cancel::cancel (any thread):
+                cancel    state.fetch_or(1)   x.io  CancelIoImpl.take()   x.take  io.co.take()   x.dis  disarm_timer() (under the lock); schedule
+    Every disarm step needs the cell's lock: while a handler is between `w.fChk` (own) and the end of `w.fTake`, nobody can end the wait.
+
+    The trees WITHOUT one of the repairs are variants of the same `step` (`St.fixOwn` / `St.regFirst` / `St.fixFlag` / `St.fixDis` =
+    false), for the labelled defect witnesses and for the replay of such trees; no theorem is about them:
+      ¬fixOwn   the cell is a `RefCell`: k.start arms (entry without handle), k.set stores the handle; `fire` takes whatever handle the
+                cell holds and goes on unconditionally; a taker has a disarm step only when it finds a handle; the canceller's
+                take + disarm + schedule is one step (`xtakeStep`)
+      ¬regFirst k.load → k.reg `cancel.set_io` AFTER the publication → k.chk `is_canceled()` ? the tail runs the cancel itself
+                (k.xor, k.xio, k.xtake)
+      ¬fixFlag  no IO_FLAG_TIMEOUT (`fire` → w.fTake);   ¬fixDis  cancel leaves the io timer armed
+    (`init` = all four true; `initHead` = /repo 960ad58 = fixFlag, fixDis; `initPinned` = none)
 
   The coroutine is a linear token: running / on its way in kernel tail k / in `co` slot of s / taken by a kernel tail or a
   worker / queued. `loc` is the ghost that says where it is; `dup` / `bad` record a double schedule / a resume of a coroutine that
@@ -66,9 +85,10 @@ inductive Out | val (n : Int) | timedOut | canceled
 inductive Loc | run | tail (k : Kt) | slot (s : Sock) | heldK (k : Kt) | heldW (w : Wk) | queued
   deriving DecidableEq, Repr
 
-/-- a timer entry: `armed s` = in the list with `event_data = s`; `disarmed` = `event_data = null` (possibly removed);
-    `gone` = popped by the timer handler -/
-inductive TmSt | free | armed (s : Sock) | disarmed | gone
+/-- a timer entry: `armed s` = in the list with `event_data = s`; `popped s` = taken out of the list by the timer thread with
+    `event_data = s`, its handler has not begun yet (a disarm comes too late for it); `disarmed` = `event_data = null` while still in
+    the list (possibly removed); `gone` = its handler has begun / it was popped with `event_data = null` -/
+inductive TmSt | free | armed (s : Sock) | popped (s : Sock) | disarmed | gone
   deriving DecidableEq, Repr
 
 /-- user side of an operation -/
@@ -90,6 +110,7 @@ inductive UPc
 inductive KPc
   | off
   | start (s : Sock) (c : Co) (r : Bool)
+  | arm (s : Sock) (c : Co) (r : Bool)           -- `St.fixOwn`: `EventData::arm_timer`, handle cell locked across add_timer + replace
   | set (s : Sock) (c : Co) (r : Bool) (t : Tm)
   | store (s : Sock) (c : Co) (r : Bool)
   | load (s : Sock) (c : Co) (r : Bool)
@@ -106,6 +127,7 @@ inductive KPc
   | xor (c : Co)
   | xio (c : Co)
   | xtake (s : Sock)
+  | xDis (s : Sock) (c : Co)                     -- `St.fixOwn`: the canceller's `disarm_timer()` (takes the cell's lock), then schedule
   deriving DecidableEq, Repr
 
 /-- a plain thread acting as selector, timer handler or canceller -/
@@ -113,10 +135,12 @@ inductive WPc
   | idle
   | sTake (s : Sock)
   | sDis (s : Sock) (c : Co)
+  | fChk (s : Sock) (t : Tm)       -- `St.fixOwn`: the handler has popped entry `t`; lock the cell: still the handle of `t`'s wait?
   | fOr (s : Sock) (t : Tm)        -- timeout_handler after `timer.take()`: `io_flag.fetch_or(IO_FLAG_TIMEOUT)`
   | fTake (s : Sock) (t : Tm)
   | xio (c : Co)
   | xtake (s : Sock)
+  | xDis (s : Sock) (c : Co)
   deriving DecidableEq, Repr
 
 inductive Actor | u (c : Co) | k (i : Kt) | w (i : Wk) | env
@@ -132,6 +156,7 @@ inductive Env
   | resume                                     -- a worker runs the queued coroutine
   | deliver (s : Sock) (bits : Nat)            -- epoll hands an event for `s` to the selector
   | fire (t : Tm)                              -- the timer list pops entry `t`
+  | pop (t : Tm)                               -- the timer thread takes entry `t` out of the list; its handler (`fire`) follows
   | cancel (c : Co)                            -- somebody calls `cancel()` on coroutine `c`
   | arrive (s : Sock) | edge (s : Sock) | tick (n : Nat)   -- kernel / clock
   | delTimer (s : Sock) | del (s : Sock)       -- IoData::drop → del_fd
@@ -170,7 +195,22 @@ structure St where
   fixDis : Bool
   -- the io subscribes register for cancel before they publish the coroutine (pending_fixes/io-stale-set_io.patch; false = /repo HEAD)
   regFirst : Bool
+  -- the timer-handle cell is a lock that carries the number of the wait it was armed for; the handler returns unless the cell still
+  -- holds its own wait's handle and keeps the lock through `co.take` (pending_fixes/io-timer-handle-race.patch; false = /repo HEAD,
+  -- where the cell is a `RefCell`)
+  fixOwn : Bool
+  -- seeded variant C17_c (witness only): the API skips its early system call when the reset of `io_flag` returned 0, i.e. it treats the
+  -- edge-triggered flag as level information about the kernel's queue
+  skipSys : Bool
+  tlock : Sock → Bool              -- the cell's lock is held (only ever by a timeout handler for more than one step)
   -- ghost
+  lockBy : Sock → Wk               -- the handler that holds / last held the cell's lock
+  own : Tm → Co                    -- the caller whose wait armed the entry
+  wno : Tm → Nat                   -- … and the number of that wait
+  wcnt : Co → Nat                  -- number of waits (yields into `subscribe`) the caller has begun
+  popBy : Tm → Wk                  -- the handler that popped the entry
+  lastCanc : Co → Wk               -- the latest thread that called `cancel()` on the coroutine
+  lastX : Sock → Wk                -- the latest canceller that took this socket out of a `CancelIoImpl`
   loc : Co → Loc
   dup : Bool                       -- a coroutine was scheduled while already queued
   bad : Bool                       -- a coroutine was resumed while it was not switched off
@@ -229,14 +269,17 @@ def ustep (st : St) (c : Co) : UPc → Env → Option St
       else none
   -- (a socket is dropped only when no operation is in progress on it: it is borrowed by the operation)
   | .idle, .delTimer s | .done _, .delTimer s =>
-      if st.user s = none then
+      if st.user s = none && !st.tlock s then
         match st.tslot s with
         | some _ => some (disarm st s)
         | none => none
       else none
   | .idle, .del s | .done _, .del s => if st.user s = none then some st else none
   | .idle, _ | .done _, _ => none
-  | .reset s, _ => some { st with flag := upd st.flag s 0, upc := upd st.upc c (.sys s true) }
+  | .reset s, _ =>
+      if st.skipSys && st.flag s == 0 then
+        some { st with opReg := upd st.opReg c true, upc := upd st.upc c (.pre s) }
+      else some { st with flag := upd st.flag s 0, upc := upd st.upc c (.sys s true) }
   | .sys s first, .sysAgain rg ld =>
       if st.avail s then none
       else if first then
@@ -253,7 +296,7 @@ def ustep (st : St) (c : Co) : UPc → Env → Option St
       if st.isCo c && st.cbit c then some { st with upc := upd st.upc c (.back s) }
       else
         some { st with upc := upd st.upc c (.wait s), loc := upd st.loc c (.tail st.nk), nk := st.nk + 1,
-                       waitFrom := upd st.waitFrom c st.now,
+                       waitFrom := upd st.waitFrom c st.now, wcnt := upd st.wcnt c (st.wcnt c + 1),
                        kpc := upd st.kpc st.nk (if st.regFirst && st.opReg c then .reg0 s c true
                                                 else match st.dur c with
                                                 | some _ => .start s c (st.opReg c)
@@ -269,7 +312,8 @@ def ustep (st : St) (c : Co) : UPc → Env → Option St
       else some { st with cio := upd st.cio c none, upc := upd st.upc c (.store s) }
   | .store s, _ => some { st with flag := upd st.flag s 0, upc := upd st.upc c (.sys s false) }
 
-/-- tail of `cancel()` after `CancelIoImpl.take()`: `io.co.take()` + schedule (the io timer stays armed) -/
+/-- tail of `cancel()` after `CancelIoImpl.take()` on the trees without the timer-handle patch: `io.co.take()`, [8f0e7f9: disarm the
+    io timer], schedule – one step (the cell is a `RefCell` there, nothing to wait for) -/
 def xtakeStep (st : St) (s : Sock) : St :=
   match st.slot s with
   | none => st
@@ -277,17 +321,37 @@ def xtakeStep (st : St) (s : Sock) : St :=
       if st.fixDis then schedule (disarm { st with slot := upd st.slot s none } s) c'
       else schedule { st with slot := upd st.slot s none } c'
 
+/- With `St.fixOwn` every taker of the coroutine goes on to a separate disarm step (`k.dis`, `k.ownDis`, `k.xDis`, `w.sDis`, `w.xDis`):
+   `timer.borrow_mut()` is a lock there and the step is enabled only while no timeout handler holds it. Without `fixOwn` the disarm
+   step exists only when there is a handle (as the hooks see it). -/
 def kstep (st : St) (k : Kt) : KPc → Env → Option St
   | .off, _ => none
   | .start s c r, _ =>
+      if st.fixOwn then some { st with kpc := upd st.kpc k (.arm s c r) }     -- (the `t.arm` mark; `arm_timer` follows)
+      else
       match st.dur c with
       | some d =>
           some { st with tm := upd st.tm st.nextTm (.armed s), deadline := upd st.deadline st.nextTm (st.now + d),
                          armedAt := upd st.armedAt st.nextTm st.now, tdur := upd st.tdur st.nextTm d,
                          lastArm := upd st.lastArm s (some st.nextTm),
+                         own := upd st.own st.nextTm c, wno := upd st.wno st.nextTm (st.wcnt c),
                          nextTm := st.nextTm + 1, kpc := upd st.kpc k (.set s c r st.nextTm) }
       | none => some { st with kpc := upd st.kpc k (.store s c r) }
-  | .set s c r t, _ => some { st with tslot := upd st.tslot s (some t), kpc := upd st.kpc k (.store s c r) }
+  -- `arm_timer`: lock the cell, next wait number, `add_timer`, store the handle, unlock – nobody can see the entry without its handle
+  | .arm s c r, _ =>
+      if st.tlock s then none
+      else
+      match st.dur c with
+      | some d =>
+          some { st with tm := upd st.tm st.nextTm (.armed s), deadline := upd st.deadline st.nextTm (st.now + d),
+                         armedAt := upd st.armedAt st.nextTm st.now, tdur := upd st.tdur st.nextTm d,
+                         lastArm := upd st.lastArm s (some st.nextTm),
+                         own := upd st.own st.nextTm c, wno := upd st.wno st.nextTm (st.wcnt c),
+                         tslot := upd st.tslot s (some st.nextTm),
+                         nextTm := st.nextTm + 1, kpc := upd st.kpc k (.set s c r st.nextTm) }
+      | none => some { st with kpc := upd st.kpc k (.store s c r) }
+  | .set s c r t, _ =>
+      some { st with tslot := if st.fixOwn then st.tslot else upd st.tslot s (some t), kpc := upd st.kpc k (.store s c r) }
   | .store s c r, _ =>
       some { st with slot := upd st.slot s (some c), loc := upd st.loc c (.slot s), lastStore := upd st.lastStore s k,
                      kpc := upd st.kpc k (.load s c r) }
@@ -298,10 +362,12 @@ def kstep (st : St) (k : Kt) : KPc → Env → Option St
       match st.slot s with
       | none => some { st with kpc := upd st.kpc k .off }
       | some c' =>
+          if st.fixOwn then some { st with slot := upd st.slot s none, loc := upd st.loc c' (.heldK k), kpc := upd st.kpc k (.dis s c') }
+          else
           match st.tslot s with
           | none => some (resumeU { st with slot := upd st.slot s none, kpc := upd st.kpc k .off } c')
           | some _ => some { st with slot := upd st.slot s none, loc := upd st.loc c' (.heldK k), kpc := upd st.kpc k (.dis s c') }
-  | .dis s c', _ => some (resumeU (disarm { st with kpc := upd st.kpc k .off } s) c')
+  | .dis s c', _ => if st.tlock s then none else some (resumeU (disarm { st with kpc := upd st.kpc k .off } s) c')
   | .reg s c, _ => some { st with cio := upd st.cio c (some s), kpc := upd st.kpc k (.chk c) }
   | .chk c, _ => some { st with kpc := upd st.kpc k (if st.cbit c then .xor c else .off) }
   | .xor c, _ => some { st with cbit := upd st.cbit c true, kpc := upd st.kpc k (.xio c) }
@@ -309,7 +375,13 @@ def kstep (st : St) (k : Kt) : KPc → Env → Option St
       match st.cio c with
       | none => some { st with kpc := upd st.kpc k .off }
       | some s => some { st with cio := upd st.cio c none, kpc := upd st.kpc k (.xtake s) }
-  | .xtake s, _ => some { xtakeStep st s with kpc := upd st.kpc k .off }
+  | .xtake s, _ =>
+      if st.fixOwn then
+        match st.slot s with
+        | none => some { st with kpc := upd st.kpc k .off }
+        | some c' => some { st with slot := upd st.slot s none, loc := upd st.loc c' (.heldK k), kpc := upd st.kpc k (.xDis s c') }
+      else some { xtakeStep st s with kpc := upd st.kpc k .off }
+  | .xDis s c', _ => if st.tlock s then none else some (schedule (disarm { st with kpc := upd st.kpc k .off } s) c')
   | .reg0 s c r, _ =>
       some { st with cio := upd st.cio c (some s),
                      kpc := upd st.kpc k (match st.dur c with | some _ => .start s c r | none => .store s c r) }
@@ -318,10 +390,12 @@ def kstep (st : St) (k : Kt) : KPc → Env → Option St
       match st.slot s with
       | none => some { st with kpc := upd st.kpc k .off }
       | some c' =>
+          if st.fixOwn then some { st with slot := upd st.slot s none, loc := upd st.loc c' (.heldK k), kpc := upd st.kpc k (.ownDis s c') }
+          else
           match st.tslot s with
           | none => some (schedule { st with slot := upd st.slot s none, kpc := upd st.kpc k .off } c')
           | some _ => some { st with slot := upd st.slot s none, loc := upd st.loc c' (.heldK k), kpc := upd st.kpc k (.ownDis s c') }
-  | .ownDis s c', _ => some (schedule (disarm { st with kpc := upd st.kpc k .off } s) c')
+  | .ownDis s c', _ => if st.tlock s then none else some (schedule (disarm { st with kpc := upd st.kpc k .off } s) c')
 
 def wstep (st : St) (w : Wk) : WPc → Env → Option St
   | .idle, .deliver s bits =>
@@ -332,40 +406,66 @@ def wstep (st : St) (w : Wk) : WPc → Env → Option St
   | .idle, .fire t =>
       if st.deadline t ≤ st.now then
         match st.tm t with
-        | .armed s => some { st with tm := upd st.tm t .gone, tslot := upd st.tslot s none, lastFire := upd st.lastFire s w,
-                                     wpc := upd st.wpc w (if st.fixFlag then .fOr s t else .fTake s t) }
+        | .armed s | .popped s =>
+                      some { st with tm := upd st.tm t .gone, tslot := if st.fixOwn then st.tslot else upd st.tslot s none,
+                                     lastFire := upd st.lastFire s w, popBy := upd st.popBy t w,
+                                     wpc := upd st.wpc w (if st.fixOwn then .fChk s t else if st.fixFlag then .fOr s t else .fTake s t) }
         | .disarmed => some { st with tm := upd st.tm t .gone }
         | _ => none
       else none
-  | .idle, .cancel c => some { st with cbit := upd st.cbit c true, wpc := upd st.wpc w (.xio c) }
+  | .idle, .cancel c => some { st with cbit := upd st.cbit c true, lastCanc := upd st.lastCanc c w, wpc := upd st.wpc w (.xio c) }
   | .idle, _ => none
   | .sTake s, _ =>
       match st.slot s with
       | none => some { st with wpc := upd st.wpc w .idle }
       | some c =>
+          if st.fixOwn then some { st with slot := upd st.slot s none, loc := upd st.loc c (.heldW w), wpc := upd st.wpc w (.sDis s c) }
+          else
           match st.tslot s with
           | none => some (schedule { st with slot := upd st.slot s none, wpc := upd st.wpc w .idle } c)
           | some _ => some { st with slot := upd st.slot s none, loc := upd st.loc c (.heldW w), wpc := upd st.wpc w (.sDis s c) }
-  | .sDis s c, _ => some (schedule (disarm { st with wpc := upd st.wpc w .idle } s) c)
+  | .sDis s c, _ => if st.tlock s then none else some (schedule (disarm { st with wpc := upd st.wpc w .idle } s) c)
+  -- lock the cell; the handler goes on only if the cell still holds the handle of the wait its entry was armed for (the handle is
+  -- there and the wait number is the entry's: in the model, the cell refers to this very entry), and keeps the lock
+  | .fChk s t, _ =>
+      if st.tlock s then none
+      else if st.tslot s = some t then
+        some { st with tslot := upd st.tslot s none, tlock := upd st.tlock s true, lockBy := upd st.lockBy s w,
+                       wpc := upd st.wpc w (.fOr s t) }
+      else some { st with wpc := upd st.wpc w .idle }
   | .fOr s t, _ =>
       some { st with flag := upd st.flag s (st.flag s ||| timeoutBit), lastFetch := upd st.lastFetch s w,
                      wpc := upd st.wpc w (.fTake s t) }
   | .fTake s t, _ =>
       match st.slot s with
-      | none => some { st with wpc := upd st.wpc w .idle }
+      | none => some { st with tlock := upd st.tlock s false, wpc := upd st.wpc w .idle }
       | some c =>
           some (resumeU { st with slot := upd st.slot s none, para := upd st.para c true, firedBy := upd st.firedBy c t,
-                                  wpc := upd st.wpc w .idle } c)
+                                  tlock := upd st.tlock s false, wpc := upd st.wpc w .idle } c)
   | .xio c, _ =>
       match st.cio c with
       | none => some { st with wpc := upd st.wpc w .idle }
-      | some s => some { st with cio := upd st.cio c none, wpc := upd st.wpc w (.xtake s) }
-  | .xtake s, _ => some { xtakeStep st s with wpc := upd st.wpc w .idle }
+      | some s => some { st with cio := upd st.cio c none, lastX := upd st.lastX s w, wpc := upd st.wpc w (.xtake s) }
+  | .xtake s, _ =>
+      if st.fixOwn then
+        match st.slot s with
+        | none => some { st with wpc := upd st.wpc w .idle }
+        | some c' => some { st with slot := upd st.slot s none, loc := upd st.loc c' (.heldW w), wpc := upd st.wpc w (.xDis s c') }
+      else some { xtakeStep st s with wpc := upd st.wpc w .idle }
+  | .xDis s c, _ => if st.tlock s then none else some (schedule (disarm { st with wpc := upd st.wpc w .idle } s) c)
 
 def estep (st : St) : Env → Option St
   | .arrive s => some { st with avail := upd st.avail s true, pend := upd st.pend s true }
   | .edge s => some { st with pend := upd st.pend s true }
   | .tick n => some { st with now := st.now + n }
+  -- (between this and the handler's first step a taker may still disarm: too late, `unarm` leaves a popped entry as it is – the handler
+  --  will run with the socket it was armed for. With the timer-handle fix it then finds that the cell no longer holds its handle)
+  | .pop t =>
+      if st.deadline t ≤ st.now then
+        match st.tm t with
+        | .armed s => some { st with tm := upd st.tm t (.popped s) }
+        | _ => none
+      else none
   | _ => none
 
 def step (st : St) (a : Actor) (e : Env) : Option St :=
@@ -376,22 +476,30 @@ def step (st : St) (a : Actor) (e : Env) : Option St :=
   | .env => estep st e
 
 /-- `co` : which callers are coroutines (the others are plain threads that go through their proxy coroutine);
-    `ff`, `fd` : which code (see `St.fixFlag`, `St.fixDis`) -/
-def initCfg (ff fd : Bool) (co : Co → Bool) : St :=
+    `ff`, `fd`, `rf`, `fo` : which code (see `St.fixFlag`, `St.fixDis`, `St.regFirst`, `St.fixOwn`) -/
+def initCfg (ff fd rf fo : Bool) (co : Co → Bool) : St :=
   { flag := fun _ => 0, slot := fun _ => none, tslot := fun _ => none, user := fun _ => none,
     avail := fun _ => false, pend := fun _ => false, now := 0,
     tm := fun _ => .free, deadline := fun _ => 0, nextTm := 0,
     upc := fun _ => .idle, isCo := co, opReg := fun _ => false, dur := fun _ => none,
     cbit := fun _ => false, cio := fun _ => none, para := fun _ => false, queued := fun _ => false,
     kpc := fun _ => .off, nk := 0, wpc := fun _ => .idle,
-    fixFlag := ff, fixDis := fd, regFirst := false,
+    fixFlag := ff, fixDis := fd, regFirst := rf, fixOwn := fo, skipSys := false, tlock := fun _ => false,
+    lockBy := fun _ => 0, own := fun _ => 0, wno := fun _ => 0, wcnt := fun _ => 0, popBy := fun _ => 0,
+    lastCanc := fun _ => 0, lastX := fun _ => 0,
     loc := fun _ => .run, dup := false, bad := false, lastStore := fun _ => 0, lastFetch := fun _ => 0, lastFire := fun _ => 0, lastArm := fun _ => none,
     armedAt := fun _ => 0, tdur := fun _ => 0, firedBy := fun _ => 0, waitFrom := fun _ => 0 }
 
-/-- the code of /repo HEAD (all io fixes in) -/
-def init (co : Co → Bool) : St := initCfg true true co
-/-- the pinned tree: no IO_FLAG_TIMEOUT, cancel leaves the timer armed -/
-def initPinned (co : Co → Bool) : St := initCfg false false co
+/-- the repaired code: /repo HEAD 960ad58 + fix: io-timer-handle-race + fix: io-stale-set_io -/
+def init (co : Co → Bool) : St := initCfg true true true true co
+/-- /repo 960ad58 without the two fixes (`RefCell` handle cell, `set_io` after publication): witnesses only -/
+def initHead (co : Co → Bool) : St := initCfg true true false false co
+/-- the pinned tree: in addition no IO_FLAG_TIMEOUT, cancel leaves the timer armed: witnesses only -/
+def initPinned (co : Co → Bool) : St := initCfg false false false false co
+
+/-- the repaired code with the seeded change C17_c (`TcpListener::accept` tries the system call only when the reset found a raised
+    flag): witness `accept_skipped_syscall_witness` only -/
+def initSkip (co : Co → Bool) : St := { init co with skipSys := true }
 
 /-- every finite schedule: disabled choices are skipped, so `∀ sched` is every interleaving with every environment -/
 def run (st : St) : List (Actor × Env) → St
